@@ -346,7 +346,7 @@ impl Drop for Tracked {
                 after: r.id,
             });
         }
-        let r = r0;
+        // the destructor's body runs after the scheduling point: it destroys whatever is there now
         if r.exec != l.exec {
             // instance of an earlier (torn down) execution: ignore
             return;
